@@ -225,6 +225,10 @@ func c06Lns(f []string) string {
 			if s.IPCP.FSM().State() == ppp.Stopping {
 				s.IPCP.FSM().Timeout()
 			}
+		case ev == "D":
+			// LCP renegotiation: the LNS owner's onLCPDown only changes the phase, the NCPs are left alone
+			c.onLCPDown(s)
+			s.Phase = ppp.PhaseAuthenticate
 		case ev[0] == 'q':
 			i := strings.IndexByte(ev, '.')
 			id, _ := strconv.Atoi(ev[1:i])
@@ -236,8 +240,8 @@ func c06Lns(f []string) string {
 		if s.ipcpOpen {
 			up = 1
 		}
-		parts = append(parts, fmt.Sprintf("%s up=%d a=%s pa=%s", drain(), up, c06ShowAddr(s.IPv4Address),
-			c06ShowAddr(s.IPCP.PeerConfig().PeerAddress)))
+		parts = append(parts, fmt.Sprintf("%s up=%d a=%s pa=%s pn=%s", drain(), up, c06ShowAddr(s.IPv4Address),
+			c06ShowAddr(s.IPCP.PeerConfig().PeerAddress), c06ShowAddr(s.IPCP.PeerConfig().Address)))
 	}
 	return strings.Join(parts, " | ")
 }
